@@ -98,6 +98,7 @@ package xtype
 
 //@ func UsageChecker.Unused
 //@   props C09
+//@   assigns nothing
 //@   maprange 1 unordered-result keys
 
 //@ func UsageChecker.Used
@@ -233,3 +234,5 @@ package xtype
 
 //@ func UsageFromMap
 //@   props C13
+//@   assigns nothing
+//@   ensures result != nil && isFresh(result)
